@@ -56,6 +56,28 @@ fn c_null() {
         let mut cleared_f: MLAArchiveFileHandle = std::ptr::null_mut();
         chk("mla_archive_file_close(NULL, ..)", mla_archive_file_close(std::ptr::null_mut(), &raw mut cleared_f));
         chk("mla_roarchive_info(NULL cb)", mla_roarchive_info(None, std::ptr::null_mut(), std::ptr::null_mut()));
+        // a live file handle survives a call refused on argument validation (real archive, file open)
+        {
+            let mut cfg: MLAConfigHandle = std::ptr::null_mut();
+            if mla_config_default_new(&raw mut cfg) as u64 == 0 {
+                unsafe { &mut *cfg.cast::<ArchiveWriterConfig>() }.set_layers(Layers::EMPTY);
+                let mut archive: MLAArchiveHandle = std::ptr::null_mut();
+                if mla_archive_new(&raw mut cfg, Some(w_cb), Some(f_cb), std::ptr::null_mut(), &raw mut archive) as u64 == 0 {
+                    let name = std::ffi::CString::new("f").unwrap();
+                    let mut fh: MLAArchiveFileHandle = std::ptr::null_mut();
+                    if mla_archive_file_new(archive, name.as_ptr(), &raw mut fh) as u64 == 0 {
+                        let keep = fh;
+                        chk("mla_archive_file_close(NULL, &live)", mla_archive_file_close(std::ptr::null_mut(), &raw mut fh));
+                        if fh != keep {
+                            bad.push("mla_archive_file_close(NULL, &live) cleared the caller's live file handle although the call was refused".to_string());
+                        } else {
+                            let _ = mla_archive_file_close(archive, &raw mut fh);
+                        }
+                    }
+                    let _ = mla_archive_close(&raw mut archive);
+                }
+            }
+        }
         if bad.is_empty() { None } else { Some(format!("not refused with BadAPIArgument: {bad:?}")) }
     });
     report(r);
